@@ -190,7 +190,7 @@ class KaniRun:
             shutil.rmtree(outdir, ignore_errors=True)
             os.makedirs(outdir, exist_ok=True)
             cmd = ['cargo', 'kani', '-Z', 'function-contracts', '-Z', 'stubbing', '-Z', 'unstable-options',
-                   '--target-dir', KTARGET, '--output-format', 'regular', '-j', str(jobs),
+                   '--target-dir', KTARGET, '--output-format', 'terse', '-j', str(jobs),
                    '--harness-timeout', '%ds' % timeout_s, '--exact']
             for ob in obligations:
                 cmd += ['--harness', ob.harness_path]
@@ -221,15 +221,26 @@ class KaniRun:
             self.undecided = 'instrumented crate does not compile under kani: %s' % (m.group(0) if m else '')
             self.compile_error = out[-3000:]
             return
-        chunks = re.split(r'^Checking harness ', out, flags=re.M)
         seen = {}
-        for ch in chunks[1:]:
-            name = ch.split('...', 1)[0].strip()
-            seen[name] = ch
-        # terse / parallel format: "Thread N: Checking harness X..."? handle generic
-        if not seen:
-            for m in re.finditer(r'Checking harness ([\w:]+)\.\.\.', out):
-                seen.setdefault(m.group(1), out)
+        thread_h = {}
+        cur = None
+        for ln in out.split('\n'):
+            m = re.match(r'^(?:Thread (\d+): )?Checking harness ([\w:]+)\.\.\.', ln)
+            if m:
+                tid = m.group(1) or '-'
+                thread_h[tid] = m.group(2)
+                seen.setdefault(m.group(2), '')
+                cur = m.group(2) if tid == '-' else None
+                continue
+            m = re.match(r'^Thread (\d+):\s*$', ln)
+            if m:
+                cur = thread_h.get(m.group(1))
+                continue
+            if re.match(r'^(Manual Harness Summary|Complete - |Verification failed for)', ln):
+                cur = None
+                continue
+            if cur is not None:
+                seen[cur] = seen.get(cur, '') + ln + '\n'
         for ob in obligations:
             ch = None
             for name, c in seen.items():
@@ -317,13 +328,14 @@ class KaniRun:
             idx = src.rstrip().rfind('}')
             src2 = src[:idx] + '\n' + test_src + '\n}\n'
             open(p_append, 'w').write(src2)
-            cmd2 = ['cargo', 'kani', 'playback', '-Z', 'concrete-playback', '--target-dir', KTARGET + '-pb',
-                    '--', tname]
+            cmd2 = ['cargo', 'kani', 'playback', '-Z', 'concrete-playback', '--', tname]
             try:
                 p2 = subprocess.run(cmd2, cwd=os.path.join(KTREE, CRATE), env=env, capture_output=True, text=True,
                                     timeout=900)
+                o2 = p2.stdout + p2.stderr
                 res['replay_rc'] = p2.returncode
-                res['replay_tail'] = (p2.stdout + p2.stderr)[-3000:]
+                res['reproduced'] = bool(re.search(r'test result: FAILED|panicked at', o2)) and tname in o2
+                res['replay_tail'] = o2[-3000:]
             except subprocess.TimeoutExpired:
                 res['replay_rc'] = None
                 res['replay_tail'] = 'native replay timed out'
@@ -349,4 +361,4 @@ def resolve_harness_paths(units):
         if not mm:
             raise X.AnchorError('kani unit %s: no #[cfg(kani)] mod' % u.name)
         for ob in u.obligations:
-            ob.harness_path = '::'.join(['axmosdb'] + modpath + [mm.group(1), ob.harness])
+            ob.harness_path = '::'.join(modpath + [mm.group(1), ob.harness])
